@@ -167,8 +167,14 @@ func buildReal(sc scen) (*netsim.Scenario, error) {
 			if !m.IsFor(b.ID) {
 				continue
 			}
-			if !from.Honest && (!b.Honest || b.Group != from.Group) {
-				continue // each twin only talks to the honest parties of its own group
+			if !from.Honest && !b.Honest {
+				continue
+			}
+			if !from.Honest && b.Group != from.Group && !(sc.Reach == "both" && b.Group == 2) {
+				// each instance only talks to the honest parties of its own group; with reach "both" the
+				// parties of group 2 are sent the messages of BOTH instances (two different valid messages
+				// for the same slot, in every order), those of group 1 only instance 1's
+				continue
 			}
 			tos = append(tos, b.Key)
 		}
@@ -224,7 +230,10 @@ func realChecker(sc scen, ns *netsim.Scenario, echo, other *int64) netsim.Checke
 					views[st[a.Key]] = append(views[st[a.Key]], a.Key)
 				}
 			}
-			if len(done[1]) > 0 && len(done[2]) > 0 {
+			// reach "both": the parties of group 2 were sent the messages of both instances and may have kept
+			// instance 1's throughout (the later ones being refused as duplicates); completing is then fine and
+			// only the agreement of the results is demanded
+			if len(done[1]) > 0 && len(done[2]) > 0 && sc.Reach != "both" {
 				vs = append(vs, netsim.Violation{Sig: fmt.Sprintf("split-completion|%s|mode=%s", sc.Proto, sc.Mode),
 					Detail: fmt.Sprintf("%s ran two instances (second one towards %v); honest parties %v and %v were served by different instances and all completed: %v", sc.Equiv, sc.Group2, done[1], done[2], st)})
 			}
@@ -278,8 +287,16 @@ func realScenarios() []scen {
 			}
 			for _, g2 := range parts {
 				for _, m := range modes {
-					l = append(l, scen{Name: fmt.Sprintf("real:%s/n%d/twin=%s/g2=%s/%s/%s", c.proto, c.n, e, strings.Join(g2, ""), m, c.srch),
-						Proto: c.proto, N: c.n, Equiv: e, Group2: g2, Mode: m, Search: c.srch})
+					for _, reach := range []string{"split", "both"} {
+						if reach == "both" && strings.HasPrefix(c.proto, "cmp") {
+							continue
+						}
+						if reach == "both" && !vkit.Thorough() && strings.Contains(c.proto, "keygen") && (m != "tailored" || strings.Join(g2, "") != "b") {
+							continue // quick: one partition and the tailored echo for the larger key generation spaces
+						}
+						l = append(l, scen{Name: fmt.Sprintf("real:%s/n%d/twin=%s/g2=%s/%s/%s/%s", c.proto, c.n, e, strings.Join(g2, ""), m, reach, c.srch),
+							Proto: c.proto, N: c.n, Equiv: e, Group2: g2, Mode: m, Reach: reach, Search: c.srch})
+					}
 				}
 			}
 		}
